@@ -249,6 +249,20 @@ Theorem C05_and_is_both_final_text a b pa pb A B C arg1 arg2 arg3 inst item c : 
   exists x y, set_contains A arg1 inst item = Ans x /\ set_contains B arg2 inst item = Ans y /\ set_contains C arg3 inst item = Ans (x && y).
 Proof. exact (and_is_both_final_text a b pa pb A B C arg1 arg2 arg3 inst item c). Qed.
 Print Assumptions C05_and_is_both_final_text.
+(* 6''. & is idempotent: a & a never raises, keeps a's override and matches exactly what a matches (explicit setting on the call) *)
+Theorem C05_and_idempotent_text a pa A : SpecifierSet a pa = Some A ->
+  exists C, set_and A A = Some C /\ ov C = ov A /\
+            forall x inst item c, Version item = Some c -> set_contains C (Some x) inst item = set_contains A (Some x) inst item.
+Proof.
+  intros HA. destruct (set_and A A) as [C|] eqn:E.
+  - exists C. split; [reflexivity|]. split.
+    + rewrite (and_override_carried A A C E). now destruct (ov A).
+    + intros x inst item c Hc.
+      destruct (and_is_both_text a a pa pa A A C x inst item c HA HA E Hc) as (u & v & Hu & Hv & HC).
+      rewrite Hu in Hv. injection Hv as <-. rewrite HC, Hu. now destruct u.
+  - exfalso. apply (proj1 (and_error_iff A A)) in E. destruct E as [[P Q]|[P Q]]; congruence.
+Qed.
+Print Assumptions C05_and_idempotent_text.
 Theorem C05_and_is_both_refuted_prerelease_no_argument : and_prerelease_counterexample = true.
 Proof. exact and_is_both_refuted_for_prerelease_without_argument. Qed.
 Print Assumptions C05_and_is_both_refuted_prerelease_no_argument.
